@@ -123,6 +123,11 @@ var ruleQueryDiscipline = &core.Rule{ID: "R10.4", Min: 8,
 					} else {
 						whyA = "a query is skipped or selected for a reason other than equality of its path with the current path (extra condition in the matching loop, or wrong result on hit / miss)"
 					}
+				} else if okI, whyI := inlinePathEq(matcher, r, isPath); okI {
+					okA = true
+					s.OK(matcher.Name()+": full path equality (inline)", c.Pos(iff.Pos()), "same length, then every segment bytes.Equal; any difference moves on to the next query")
+				} else if whyI != "" {
+					whyA = whyI
 				} else {
 					whyA = "the matching loop tests something other than path equality with the current path"
 				}
@@ -424,6 +429,105 @@ func valueSpan(sl *ssa.Slice, valCall *ssa.Call) bool {
 }
 
 // pathEqShape checks the path equality helper.
+// inlinePathEq recognises the path equality written out in the body of the
+// matching loop r: a length test of the query's path against the current path
+// that moves on to the next query when they differ, then a full range over one
+// of the two comparing each segment of both with bytes.Equal, a difference
+// moving on to the next query and the end of the range returning the query's
+// index; the outer loop's end returns -1. why is empty when the body is not of
+// this kind at all.
+func inlinePathEq(matcher *ssa.Function, r fde.RangeElem, isPath func(ssa.Value) bool) (ok bool, why string) {
+	iff := core.IfOf(r.Body)
+	if iff == nil {
+		return false, ""
+	}
+	cond, pos := core.StripNot(iff.Cond, true)
+	bo, isBo := cond.(*ssa.BinOp)
+	if !isBo || (bo.Op != token.NEQ && bo.Op != token.EQL) {
+		return false, ""
+	}
+	lx, okx := bo.X.(*ssa.Call)
+	ly, oky := bo.Y.(*ssa.Call)
+	if !okx || !oky || !core.IsBuiltin(&lx.Call, "len") || !core.IsBuiltin(&ly.Call, "len") {
+		return false, ""
+	}
+	want, cur := lx.Call.Args[0], ly.Call.Args[0]
+	if isPath(want) {
+		want, cur = cur, want
+	}
+	if fld, okF := elemFieldLoad(r, want); !okF || fld != pathFieldOf(r.ElemAddr) || !isPath(cur) {
+		return false, "the length test in the matching loop does not compare the query's path with the current path"
+	}
+	eqSucc, neSucc := r.Body.Succs[1], r.Body.Succs[0]
+	if (bo.Op == token.EQL) == pos {
+		eqSucc, neSucc = neSucc, eqSucc
+	}
+	if neSucc != r.Header {
+		return false, "paths of different length are not skipped: a query path would match as a prefix of a deeper path (look-alike keys at other depths)"
+	}
+	done := retOf(r.Done)
+	if done == nil || !core.IsConstInt(done.Results[0], -1) {
+		return false, "the matcher does not answer -1 when no query matches"
+	}
+	for _, ranged := range []ssa.Value{want, cur} {
+		other := cur
+		if ranged == cur {
+			other = want
+		}
+		for _, r2 := range fde.FindRangeOver2(matcher, ranged) {
+			if r2.Header == r.Header {
+				continue
+			}
+			// the inner loop is entered straight from the equal-length edge
+			entered := eqSucc == r2.Header
+			if !entered && len(eqSucc.Succs) == 1 && eqSucc.Succs[0] == r2.Header {
+				entered = true
+				for _, in := range eqSucc.Instrs {
+					switch in.(type) {
+					case *ssa.Call, *ssa.Jump, *ssa.DebugRef:
+					default:
+						entered = false
+					}
+				}
+			}
+			if !entered {
+				continue
+			}
+			iff2 := core.IfOf(r2.Body)
+			if iff2 == nil {
+				continue
+			}
+			c2, pos2 := core.StripNot(iff2.Cond, true)
+			call, isCall := c2.(*ssa.Call)
+			if !isCall || !core.CalleeIs(&call.Call, "bytes", "Equal") {
+				continue
+			}
+			seg := func(v ssa.Value, of ssa.Value) bool {
+				u, isU := v.(*ssa.UnOp)
+				if !isU || u.Op != token.MUL {
+					return false
+				}
+				ia, isIA := u.X.(*ssa.IndexAddr)
+				return isIA && ia.X == of && ia.Index == r2.Index
+			}
+			a0, a1 := call.Call.Args[0], call.Call.Args[1]
+			if !((seg(a0, ranged) && seg(a1, other)) || (seg(a0, other) && seg(a1, ranged))) {
+				continue
+			}
+			same, differ := r2.Body.Succs[0], r2.Body.Succs[1]
+			if !pos2 {
+				same, differ = differ, same
+			}
+			hit := retOf(r2.Done)
+			if same == r2.Header && differ == r.Header && hit != nil && hit.Results[0] == r.Index {
+				return true, ""
+			}
+			return false, "a query is skipped or selected for a reason other than equality of its path with the current path (wrong result on hit / miss of the segment comparison)"
+		}
+	}
+	return false, "the matching loop does not compare every segment of both paths with bytes.Equal"
+}
+
 func pathEqShape(eq *ssa.Function) (bool, string) {
 	if len(eq.Params) != 2 {
 		return false, "path equality helper does not take two paths"
